@@ -344,8 +344,8 @@ def build_evidence(mod, pid, tier, seed, insts, results, violations, unreproduce
             "the stated bounds is explored unless listed as inconclusive.",
             "obligations": obligations + n_incon,
             "discharged": discharged,
-            "inconclusive_obligations": (obligations - discharged - len(violations) - len(unreproduced)) + n_incon
-            if obligations >= discharged else n_incon,
+            "inconclusive_obligations": n_incon,
+            "obligations_violated_by_known_findings": sum(len(r.get("known_hits") or {}) for r in results),
             "inconclusive_detail": incon_detail[:20],
             "paths": tot("paths"),
             "paths_reached_assertion": tot("paths_reached_assertion"),
